@@ -156,6 +156,8 @@ func (d *dealerPart) OnEnded(w *World, st *StepRec, idx int, exp Exp) {
 		}
 		for _, m := range r.members {
 			if m == idx {
+				w.st.Label("nt05")
+				w.st.Label("ended_with_registration")
 				d.removeMember(w, st, r, idx)
 				break
 			}
@@ -172,6 +174,7 @@ func (d *dealerPart) OnEnded(w *World, st *StepRec, idx int, exp Exp) {
 	for _, c := range served {
 		c := c
 		c.events++
+		w.st.Label("nt05")
 		if w.sess[c.caller].live() {
 			req := c.req
 			exp.must(c.caller, fmt.Sprintf("ERROR{CALL req=%d} because the callee's session ended", req), func(x wamp.Message) bool { return isCallError(x, req, "") })
@@ -201,6 +204,7 @@ func (d *dealerPart) OnEnded(w *World, st *StepRec, idx int, exp Exp) {
 			return ok && i.Request == inv
 		})
 		d.finish(c, true)
+		w.st.Label("nt05")
 		w.st.Label("caller_left_with_pending_call")
 	}
 }
@@ -561,7 +565,7 @@ var identityKeys = []string{"caller", "caller_authid", "caller_authrole"}
 func (d *dealerPart) onCallMsg(w *World, st *StepRec, s int, realm string, rc *RealmCfg, m *wamp.Call, exp Exp) *Violation {
 	req := m.Request
 	proc := string(m.Procedure)
-	if strings.HasPrefix(proc, "wamp.") {
+	if routerProc(rc, proc) {
 		d.metaReq[ck{s, req}] = true
 		return nil
 	}
